@@ -56,7 +56,8 @@ cpp_int BlockProof(uint32_t bits)
 {
     int exp = bits >> 24;
     cpp_int mant = bits & 0x007fffff;
-    cpp_int target = exp <= 3 ? (mant >> (8 * (3 - exp))) : (mant << (8 * (exp - 3)));
+    cpp_int target = mant;
+    if (exp <= 3) target >>= 8 * (3 - exp); else target <<= 8 * (exp - 3);
     return (cpp_int(1) << 256) / (target + 1);
 }
 
